@@ -195,6 +195,7 @@ def parseGoError (s : String) : Option GoError :=
   | ["url-deadline"] => some (.wrap (.ctx .deadline))
   | ["wrapped-canceled"] => some (.wrap (.wrap (.ctx .canceled)))
   | ["opaque"] => some .opaque
+  | ["closedpipe"] => some .opaque
   | ["eof"] => some .eof
   | ["ueof"] => some .unexpectedEOF
   | ["rst", n] => some (.rst (str n))
@@ -225,6 +226,27 @@ def cflowOp (args : List String) : String :=
       | none => "bad-op"
     | none => "bad-op"
   | _, _ => "bad-op"
+
+/-- `cwatch`: the context (kind `ctx=`) ends during a blocked body read; the watcher stores its
+    error and closes the request pipe; then the body read fails with `err=` -/
+def cwatchOp (args : List String) : String :=
+  match kv args "point", (kv args "err").bind parseGoError, kv args "ctx" with
+  | some point, some e, some ck =>
+    let k : CtxKind := if ck == "deadline" then .deadline else .canceled
+    let stored := setError none (.ctx k)
+    let r := duplexReadErrorStored stored e
+    let first : Option GoError :=
+      match point.splitOn ":" with
+      | ["prefix", n] => n.toNat?.map fun j => clientReceiveError (envelopePrefixError j r)
+      | ["payload", _] => some (clientReceiveError (if r.isEOF then .coded codeInvalidArgument .opaque else envelopePayloadError r))
+      | _ => none
+    match first, stored with
+    | some f, some st =>
+      let f' := wrapIfUncoded f
+      let second := wrapIfUncoded (clientReceiveError (envelopePrefixError 0 st))
+      s!"first={f'.codeOf} second={second.codeOf}"
+    | _, _ => "bad-op"
+  | _, _, _ => "bad-op"
 
 def poolTraceOp (toks : List String) : String :=
   let evs : Option (List PoolEv) := toks.mapM fun t =>
@@ -336,6 +358,7 @@ def step (line : String) : String :=
   | "pool.trace" :: toks => poolTraceOp toks
   | "dtrace" :: toks => dtraceOp toks
   | "cflow" :: args => cflowOp args
+  | "cwatch" :: args => cwatchOp args
   | "gen" :: args => genOp args
   | "icpt" :: args => icptOp args
   | "recover" :: args => recoverOp args
